@@ -964,7 +964,12 @@ def run_c13(mod, lib, case, root, canon, datadir):
         log = list(xvlog.LOG)
         stub_index = {id(s): index[c] for c, s in store.store.items() if c in index}
         rec["lines"].append({"op": "instance", "root": k, "constructed": sorted(constructed)})
-        rec["impl"].append({"log": events_json(log, stub_index), "store": sorted(index[c] for c in store.constructed if c in index)})
+        attrs = []
+        for kind, o, names, _ in log:      # identity relations: every attribute rendered through the store (object -> configuration)
+            if kind == "post":
+                attrs.append([stub_index.get(id(o), -1), [[hx(n), model_val(vars(o)[n], stub_index, canon)] for n in names]])
+        rec["impl"].append({"log": events_json(log, stub_index), "store": sorted(index[c] for c in store.constructed if c in index),
+                            "attrs": attrs})
         cfgs = reachable_inst(objs[k])
         new_cfgs = [c for c in cfgs if id(c) not in before]
         label = f"instance() call {ci + 1}/{len(calls)}"
